@@ -23,6 +23,10 @@ END token).  Identifiers, literals, comments and layout are identical in all spe
                 assignments; generate .. to self / class / assigner / creator, create event instance + generate,
                 bridge and transform invocations, control stop, rcvd_evt, send - D(i), D(ii) via run_operation /
                 run_derived_attribute, D(iii) via the O_TFR / O_DBATTR prebuilders
+  family 'reselect' (kinds exec / op / dattr as above)  select statements of all three forms, one / any / many, that
+                assign a variable ALREADY DECLARED by an earlier select of the same class (same or enclosing block):
+                the prebuilder / interpreter do not declare a variable there, so the cardinality keyword is the only
+                source of what is recorded (ACT_FIO / ACT_FIW / ACT_SEL.cardinality) - D(i), D(ii), D(iii) unchanged
   All spellings of a case are parsed / interpreted / prebuilt back to back in ONE process, with a REJECTED text (a
   broken copy containing `%s`) in between, the lower-case text once more at the end and the lower-case text with
   layout around it (equal after strip(); no prebuild comparison, positions legitimately differ).
@@ -43,7 +47,11 @@ RULE = ('programs x 5 spellings (lower, UPPER, Capitalised, 2 random per-letter 
         'occurrences and (exec) the lower-case program ran without exception; distinct by lower-case text.  Families '
         'that make the reading of a keyword visible: side-effecting domain functions as right operand of and/or and '
         'under the unary keyword operator not (operand evaluated exactly once), select one/any across a to-many '
-        'association from an instance with several related instances; at most 15 % of the bodies may fail to run')
+        'association from an instance with several related instances; select statements (from instances, from '
+        'instances where, related by [where]; one / any / many) whose result variable is ALREADY DECLARED by an '
+        'earlier select of the same class in the same or an enclosing block (family reselect: exec, op and dattr '
+        'bodies, every spelling prebuilt and run; counters x-reselect-*), where the cardinality keyword alone says '
+        'what the statement yields; at most 15 % of the bodies may fail to run')
 EXHAUSTIVE = {'quick': False, 'thorough': False}
 ASSUMPTIONS = [
     'domain: only keyword occurrences in keyword ROLE are re-spelled; a keyword token in a name position (kw_as_identifier: '
@@ -103,8 +111,122 @@ def _spell_text(rng, prog, pl, mode):
     return ''.join(out), n
 
 
-def _case(rng, kind, tag):
+def _reselecting(base):
+    """the program writer `base` (G.ExecGen / G.OpGen) with one more habit: a select statement may assign a variable
+    that is ALREADY DECLARED at that point (by an earlier select / create of the same class, in the same or in an
+    enclosing block) instead of declaring a fresh one - all three statement forms (from instances, from instances
+    where, related by [where]), handles (one / any) and sets (many), at top level and inside if / while / for bodies.
+    The keyword that says what the statement yields (one / any / many) is then the only thing that does: the variable
+    already has its kind."""
+    class Reselecting(base):
+        RESELECT_P = 0.55
+
+        def _declared(self):
+            # handles that later statements do not rely on being non-empty (a re-selection may empty them), and sets
+            sure = set(n for n, _ in self.safe)
+            return [(n, c, False) for n, c in self.insts if n not in sure] + [(n, c, True) for n, c in self.sets]
+
+        def _use(self, v, cls, many):
+            # make what the statement yielded visible in the result
+            self.idt('acc'); self.pn('EQUAL'); self.idt('acc'); self.pn('TIMES'); self.num(3); self.pn('PLUS')
+            if many:
+                self.kw('cardinality'); self.idt(v); self.end()
+                return
+            self.num(1); self.end()
+            self.kw('if'); self.pn('LPAREN'); self.kw('not_empty'); self.idt(v); self.pn('RPAREN')
+            self.idt('acc'); self.pn('EQUAL'); self.idt('acc'); self.pn('PLUS'); self.idt(v); self.pn('DOT')
+            self.idt(self.r.choice(G.EXEC_CLASSES[cls])); self.end()
+            self.end_tok('if'); self.end()
+
+        def x_reselect(self):
+            """one select statement into an already declared variable; False when nothing suitable is declared"""
+            r = self.r
+            cands = self._declared()
+            if not cands:
+                return False
+            v, cls, many = r.choice(cands)
+            # starts of a navigation that ends in cls with the multiplicity the variable needs
+            starts = []
+            for h, hc in self.insts:
+                for nav in G.EXEC_NAV:
+                    if nav[0] == hc and nav[1] == cls and (nav[4] or not many):
+                        starts.append((h, nav))
+            if hasattr(self, 'self_kw'):
+                for nav in G.EXEC_NAV:
+                    if nav[0] == 'A' and nav[1] == cls and (nav[4] or not many):
+                        starts.append((None, nav))
+            if starts and r.random() < 0.5:
+                h, (frm, to, rel, phrase, nav_many) = r.choice(starts)
+                card = 'many' if many else 'any' if nav_many else r.choice(['one', 'any'])
+                if h is not None:
+                    self.kw('if'); self.pn('LPAREN'); self.kw('not_empty'); self.idt(h); self.pn('RPAREN')
+                self.kw('select'); self.kw(card); self.idt(v); self.kw('related'); self.kw('by')
+                if h is None:
+                    self.self_kw()
+                else:
+                    self.idt(h)
+                self.pn('ARROW'); self.idt(to); self.pn('LSQBR'); self.idt(rel)
+                if phrase:
+                    self.pn('DOT'); self.t('TICKED_PHRASE', phrase)
+                self.pn('RSQBR')
+                if r.random() < 0.4:
+                    self.where(to)
+                self.end()
+                if h is not None:
+                    self.end_tok('if'); self.end()
+                self.p.count('x-reselect-related')
+            else:
+                self.kw('select'); self.kw('many' if many else 'any'); self.idt(v); self.kw('from')
+                self.kw('instances'); self.kw('of'); self.idt(cls)
+                if r.random() < 0.5:
+                    self.where(cls)
+                    self.p.count('x-reselect-from-where')
+                else:
+                    self.p.count('x-reselect-from')
+                self.end()
+            self._use(v, cls, many)
+            return True
+
+        def x_select_from(self):
+            if self.r.random() < self.RESELECT_P and self.x_reselect():
+                return
+            return base.x_select_from(self)
+
+        def x_select_related(self):
+            if self.r.random() < self.RESELECT_P and self.x_reselect():
+                return
+            return base.x_select_related(self)
+
+        def end(self):
+            base.end(self)
+            if not getattr(self, 'preamble_done', False):
+                # right after the first statement of every program (`acc = 1;`): two declarations, so that there is
+                # something to select into again from the first statement on
+                self.preamble_done = True
+                base.x_select_from(self)
+                base.x_select_from(self)
+                if self.r.random() < 0.7:
+                    self.x_reselect()
+    return Reselecting
+
+
+_reselect_gens = {}
+
+
+def _gen_reselect_program(rng, kind, max_stmts):
+    if not _reselect_gens:
+        _reselect_gens['exec'] = _reselecting(G.ExecGen)
+        _reselect_gens['op'] = _reselecting(G.OpGen)
     if kind == 'exec':
+        return _reselect_gens['exec'](rng, max_stmts).program()
+    return _reselect_gens['op'](rng, kind, max_stmts).program()
+
+
+def _case(rng, kind, tag, reselect=False):
+    if reselect:
+        prog = _gen_reselect_program(rng, kind, rng.choice([3, 5, 7]))
+        pl = G.layout(rng, prog, 'plain')
+    elif kind == 'exec':
         prog = G.gen_exec_program(rng, max_stmts=rng.choice([4, 6, 8]))
         pl = G.layout(rng, prog, 'plain')
     elif kind in ('op', 'dattr'):
@@ -130,6 +252,10 @@ def generate(ctx):
     rng = ctx.rng.fork('exec')
     for i in range(ctx.pick(100, 5000)):
         yield _case(rng.fork(i), 'exec', ['exec', i])
+    # select statements into already declared variables (see _reselecting)
+    rng = ctx.rng.fork('reselect')
+    for i in range(ctx.pick(120, 3000)):
+        yield _case(rng.fork(i), ('exec', 'op', 'exec', 'dattr')[i % 4], ['reselect', i], reselect=True)
     rng = ctx.rng.fork('parse')
     for i in range(ctx.pick(500, 16000)):
         yield _case(rng.fork(i), 'parse', ['parse', i])
@@ -153,7 +279,7 @@ def search(ctx, broken):
     rng = ctx.rng.fork('search')
     i = 0
     while True:
-        yield _case(rng.fork(i), 'exec' if i % 2 else 'op', ['search', i])
+        yield _case(rng.fork(i), 'exec' if i % 2 else 'op', ['search', i], reselect=i % 4 >= 2)
         i += 1
         if i % 4 == 0:
             yield _case(rng.fork(-i), 'parse', ['search-parse', i])
